@@ -468,6 +468,7 @@ class Gen:
         self.vis: dict[str, int] = {}        # cid -> user-visible modes
         self.her: dict[str, int] = {}        # cid -> own heralds (optimistic)
         self.counts: dict[str, int] = {}
+        self.nplus = 0
 
     def note(self, k: str) -> None:
         self.counts[k] = self.counts.get(k, 0) + 1
@@ -1031,11 +1032,19 @@ class Gen:
         if which == "copy":
             return self.derive("copy", cid)
         if which == "plus":
-            if self.her[cid]:
+            # `c + c` doubles the component list (and the size of the exact entries in the model): once per
+            # history, and mostly with a small second operand that carries a Parameter of its own
+            if self.her[cid] or self.nplus >= 1:
                 self.prog.append(["nonadj", cid])
                 return cid
-            same = [c for c in self.vis if self.vis[c] == self.vis[cid] and not self.her[c]]
-            return self.derive("plus", cid, rng.choice(same))
+            self.nplus += 1
+            pids = [p for p, k in self.kind.items() if k != "free"]
+            if pids and rng.random() < 0.65:
+                d = self.new_circ(self.vis[cid])
+                self.attach(d, rng.choice(pids))
+                a, b = (cid, d) if rng.random() < 0.5 else (d, cid)
+                return self.derive("plus", a, b)
+            return self.derive("plus", cid, cid)
         host = self.new_circ(self.vis[cid] - self.her[cid] + rng.randint(0, 1))
         self.add_into(host, cid)
         return host
@@ -1122,6 +1131,8 @@ def gen_rewrite_history(rng, big: bool = False) -> tuple[list, dict]:
 
     top = g.new_circ(rng.randint(3, 5 if big else 4))
     populate(top, rng.randint(2, 4))
+    if not g.attached:
+        g.attach(top, rng.choice(units), "refl")
     depth = rng.choice([0, 1, 1, 2, 2, 3 if big else 2])
     for _ in range(depth):
         if rng.random() < 0.35:
